@@ -61,6 +61,7 @@ def check_overload(rep, mod, cfg, name, specfn, alias=None, extents_fn=None, sam
         for dec, eff, values, atom_subst in explore_paths(mod, name, summ, ctx, params0, alias=alias, extents=ext):
             ptag = tag + ('' if not dec else ' path[' + ','.join(
                 ('%s%s%d' % (k[1], '<=' if v else '>', k[2])) if k[0] == 'rng' else
+                ('(%s)%s0' % (v[1], '==' if v[0] else '!=')) if k[0] == 'lin' else
                 (('%s%s%d' % (k[0], '==' if v else '!=', k[1])) if k[0] != 'res' else ('(%s)%s0' % (v[1], '==' if v[0] else '!=')))
                 for k, v in sorted(dec.items(), key=str)) + ']')
             _compare(rep, mod, cfg, name, dem, ptag, site, specfn, eff, ctx, values, alias, sample, atom_subst)
@@ -109,7 +110,7 @@ def explore_paths(mod, name, summ, ctx, params0, alias=None, extents=None, elem=
         if npaths > maxpaths:
             raise Incomplete('more than %d shape- or residue-dependent paths' % maxpaths)
         values = dict(values0 or {})
-        values.update({k[0]: k[1] for k, v in dec.items() if k[0] not in ('res', 'rng') and v})
+        values.update({k[0]: k[1] for k, v in dec.items() if k[0] not in ('res', 'rng', 'lin') and v})
         atom_subst = {}
         for k, v in dec.items():
             if k[0] == 'res' and v[0]:
@@ -121,6 +122,19 @@ def explore_paths(mod, name, summ, ctx, params0, alias=None, extents=None, elem=
                 else:
                     raise Incomplete('the routine branches on a residue test that does not pin a single operand cell (%s = 0)' % nf)
 
+        # equalities between integer atoms (entries of index arrays, scalar parameters) decided true on this path: one symbol
+        # with coefficient +-1 is expressed through the others, in the effect and in the specification alike
+        lin_subst = {}
+        for k, v in dec.items():
+            if k[0] == 'lin' and v[0]:
+                dd = v[1]
+                for m, cf in sorted(dd.d.items(), key=str):
+                    if m != () and len(m) == 1 and m[0][1] == 1 and cf in (1, -1) and m[0][0] not in lin_subst:
+                        rest = dd - Poly({m: cf})
+                        lin_subst[m[0][0]] = (rest * (-cf))
+                        break
+                else:
+                    raise Incomplete('the routine branches on an equality that does not determine one symbol (%s = 0)' % dd)
         # ranges of scalar shape parameters decided so far on this path (order tests against constants)
         ranges = {}
         for k, v in dec.items():
@@ -226,6 +240,16 @@ def explore_paths(mod, name, summ, ctx, params0, alias=None, extents=None, elem=
                 if nkey in dec:
                     return dec[nkey][0] if pred == 'eq' else (not dec[nkey][0])
                 raise _NeedDecision(key, nf)
+            if pred in ('eq', 'ne') and d.vars() and all(len(m) == 1 and m[0][1] == 1 for m in d.d if m != ()) \
+                    and not (len(d.vars()) == 1 and list(d.vars())[0] in scalars) \
+                    and all((v in scalars) or _re.match(r'^[A-Za-z_]\w*\[', v) for v in d.vars()) and not any(v in ctx.canon for v in d.vars()):
+                key = ('lin', d.key())
+                nkey = ('lin', (-d).key())
+                if key in dec:
+                    return dec[key][0] if pred == 'eq' else (not dec[key][0])
+                if nkey in dec:
+                    return dec[nkey][0] if pred == 'eq' else (not dec[nkey][0])
+                raise _NeedDecision(key, d)
             if pred not in ('eq', 'ne') or len(d.d) > 2:
                 return None
             sym = [m for m in d.d if m != ()]
@@ -253,6 +277,9 @@ def explore_paths(mod, name, summ, ctx, params0, alias=None, extents=None, elem=
                 d2[nd.key] = (v, nd.nf) if nd.nf is not None else v
                 work.append(d2)
             continue
+        if lin_subst:
+            values = dict(values)
+            values.update(lin_subst)
         yield dec, eff, values, atom_subst
 
 
@@ -278,8 +305,9 @@ def _compare(rep, mod, cfg, name, dem, tag, site, specfn, eff, ctx, values, alia
     except NoSpec as e:
         rep.incomplete('value:' + tag, 'wrapper-value', site, 'signature outside the grammar: %s' % e)
         return
+    post = {k: v for k, v in (values or {}).items() if isinstance(v, Poly)}     # relations decided on the path (x := y + 3): applied to both sides
     if values:
-        mp = {k: Poly.const(v) for k, v in values.items()}
+        mp = {k: (v if isinstance(v, Poly) else Poly.const(v)) for k, v in values.items()}
         # cell atoms embed their index text: rebuild names under the substitution
         def sub_poly(p):
             out = Poly()
@@ -304,6 +332,9 @@ def _compare(rep, mod, cfg, name, dem, tag, site, specfn, eff, ctx, values, alia
             rep.incomplete('value:' + tag, 'wrapper-value', site, 'non-field value %r written to %s' % (v, k))
             return
         nf = v.nf
+        if post:
+            nf = sub_poly(nf)
+            k = _subst_key(k, mp)
         if subst and (nf.vars() & set(subst)):
             nf = nf.subst(subst).modp()
         if atom_subst and (nf.vars() & set(atom_subst)):
@@ -322,7 +353,8 @@ def _compare(rep, mod, cfg, name, dem, tag, site, specfn, eff, ctx, values, alia
         rep.refute('value:' + tag, 'wrapper-value', site, '; '.join(bad[:3]) + (' (+%d more)' % (len(bad) - 3) if len(bad) > 3 else ''))
     else:
         rep.ok('value:' + tag, 'wrapper-value', site, desc)
-    extra = sorted((k for k in eff.reads if k not in exp_r and k not in exp_w), key=str)
+    reads_ = {(_subst_key(k, mp) if post else k) for k in eff.reads}
+    extra = sorted((k for k in reads_ if k not in exp_r and k not in exp_w), key=str)
     if extra:
         rep.refute('reads:' + tag, 'wrapper-footprint', site, 'reads outside the designated cells: %s' % extra[:4])
     else:
